@@ -71,7 +71,8 @@ CHECKS["C09"] = {
 _LIFE_NOTE = ("trusted: TLC; the projection package (encoding/pem + encoding/asn1 shadow structures, standard-library RSA/ECDSA for NIST curves, "
               "own math/big arithmetic for brainpool) which reads the abstract state off the real directory; the simulated filesystem "
               "(logical clock, fault plan). Bounded: 3 entities (chain / star / two roots), 2-3 content values, environment steps <= 2 (quick) / 3 "
-              "(thorough) + seeded random histories of length 10-12; expiry and profile edits are not part of this model (C11 table / C08).")
+              "(thorough) + seeded random histories of length 10-12; the wide alphabet adds a shared profile file (EditProfile) and expiry "
+              "(Expire + generate-expired) at MaxEnv 2.")
 CHECKS["C10"] = {
     "engine": "tlc-spec", "category": "model_checking", "design_ref": "6/C10, 3 (Repo.tla), A.4",
     "technique": "TLC model checking of Repo.tla (invariant Idempotent over all 16 flag sets without generate-all) + exploration of the same "
@@ -80,7 +81,9 @@ CHECKS["C10"] = {
             "reaches every projected state of the same bounds on the real code (simulated filesystem), performs every run with all 16 flag "
             "sets, then runs again: TLC judges each recorded step (transition allowed by Repo!RunMacro, changed files = artifacts of the "
             "planned entities, nothing else created/modified/deleted, second run plans nothing and changes nothing).",
-    "note": _LIFE_NOTE + " The CLI consent path (y/N) is checked by the CLI slice of this check.",
+    "note": _LIFE_NOTE + " The CLI (flag -> strategy mapping, y/N consent, exit code, files touched) is checked by the CLI slice of this check "
+            "(Cli.tla judges runs of the built binary), and one exploration performs every run by executing the built gopki binary on a native "
+            "directory (no fault injection there).",
 }
 CHECKS["C12"] = {
     "engine": "tlc-spec", "category": "model_checking", "design_ref": "6/C12, 3 (Repo.tla), A.4",
